@@ -345,3 +345,46 @@ def c03_order(ctx, case):
         est.compare_psd(ctx, "music", p1, ac ** e * np.real(p0),
                         "eigen(%s, %s rule, P=%d): pseudo-spectrum of c*x vs |c|^%d x that of x (a different signal-subspace "
                         "dimension was selected?) c=%r" % (q["method"], q["select"], q["IP"], e, c), sig=sig)
+
+
+# ---- sharp spectral lines (MUSIC / EV): scaling where the small singular values carry the weights -------------------------
+@st.composite
+def sharp_case(draw):
+    x, nfft, K, noise = draw(gen.sharp_lines(32, 96, [32, 48, 64, 96], [1e-6, 1e-7, 1e-5]))
+    nsig = K if x["complex"] else 2 * K
+    ip = nsig + draw(st.integers(2, 5))
+    if ip > x["n"] // 3:
+        ip = nsig + 2
+    return {"x": x, "nfft": nfft, "IP": ip, "NSIG": nsig, "noise": noise, "row": draw(st.sampled_from(["pev", "pev", "pmusic"])),
+            "c": draw(st.sampled_from([3.7, 0.3, 10.0, 123.0, 1e-3, 7e2])), "phase": draw(st.floats(0, 6.283))}
+
+
+@sub("C03.sharp", strategy=sharp_case(), quick=300, thorough=8000,
+     doc="pev / pmusic on high-SNR lines (noise 1e-7..1e-5, singular values spread over >= 1e5): EV(c x) == |c| EV(x), "
+         "MUSIC(c x) == MUSIC(x) at every bin within 5e-11/noise relative (unchanged code: <= 4.5e-13/noise over 1500 records)")
+def c03_sharp(ctx, case):
+    x = gen.realise(case["x"])
+    cplx = np.iscomplexobj(x)
+    x = x.astype(complex) if cplx else x.astype(float)
+    row, nfft = case["row"], case["nfft"]
+    if case["IP"] > len(x) // 2:
+        ctx.exclude("order too large for the record")
+        return
+    c = case["c"] * (np.exp(1j * case["phase"]) if cplx else 1.0)
+    sig = {"row": row, "clause": "sharp"}
+    ctx.sig_on_exception = sig
+    cls = getattr(spectrum, row)
+    a = np.real(np.asarray(cls(x, case["IP"], NSIG=case["NSIG"], NFFT=nfft, scale_by_freq=False).psd))
+    b = np.real(np.asarray(cls(c * x, case["IP"], NSIG=case["NSIG"], NFFT=nfft, scale_by_freq=False).psd))
+    f = abs(c) if row == "pev" else 1.0
+    ctx.cls(row, "complex" if cplx else "real", "noise=%g" % case["noise"])
+    ctx.nontrivial(True)
+    ok = np.isfinite(a) & np.isfinite(b) & (a > 0)
+    ctx.check(a.shape == b.shape and np.array_equal(np.isfinite(a), np.isfinite(b)), "%s: shape / finiteness depends on the amplitude" % row, sig=sig)
+    if not np.any(ok):
+        return
+    tol = 5e-11 / case["noise"]
+    e = np.abs(b[ok] / f - a[ok]) / a[ok]
+    i = int(np.argmax(e))
+    ctx.check(float(e[i]) <= tol, "%s: pseudo-spectrum of c x is not %s times that of x: relative difference %.3g (allowed %.3g = "
+              "5e-11/noise, noise %g, |c| = %g)" % (row, "|c|" if row == "pev" else "1", e[i], tol, case["noise"], abs(c)), sig=sig)
